@@ -14,7 +14,10 @@ META = {
                  "lookup with its memo (findProjectRepository) and of the project's own resolution (loadConfigFile) + "
                  "correspondence on generated universes through the package's own fake repository, through "
                  "multi-repository layouts (nested projects, two kinds of host) with fault injection and lookup orders, "
-                 "and through dawn.Load on the caches those runs filled, intact and damaged",
+                 "and through dawn.Load on the caches those runs filled, intact and damaged; of the gate LoadConfigBytes applies "
+                 "to requirement versions and of cmpVersion on the version STRINGS (Mvs/Gate.v: x/mod semver parse, Canonical, "
+                 "Compare) + correspondence on a family of version spellings and on universes that demand one project at two "
+                 "versions of equal precedence under both declaration orders",
     "level_text": "Theorems (Coq, unbounded): for every processing order of the work list, every finite universe (cycles, "
                   "diamonds, several majors) and every root requirement list, the model's build list is exactly the set of "
                   "reachable paths, each once, at the maximum version over the reachable requirements, sorted by path "
@@ -30,7 +33,11 @@ META = {
                   "configuration or an error (resolve_via_damaged_cache), so Load fails or Project.buildList is the MVS "
                   "solution (load_fails_or_solution). The repository lookup answers what a memo miss computes whatever "
                   "the resolver looked up before (find_repository_order_independent) and the answer joins to the looked-up "
-                  "path (find_repository_sound). The model is tied to "
+                  "path (find_repository_sound). On the version strings themselves: no two different strings the "
+                  "configuration gate admits are of equal precedence (admitted_versions_never_tie; admitted_version_spelling), "
+                  "while valid strings it rejects are, and Reqs.Max then answers with its first argument "
+                  "(unadmitted_versions_tie); a project directory with a dawn.toml is configured by it whatever else it holds "
+                  "(config_file_precedence, config_file_fallback). The model is tied to "
                   "get.go/reqs.go/resolver.go and the library by running both on generated universes "
                   "(cold cache, warm resolver, warm disk cache, shared cache, shuffled declaration order) and, for the cache "
                   "model, on multi-repository layouts with every delivery point of a download failing once or parked while a "
@@ -39,7 +46,14 @@ META = {
                   "reachable project version as a single-requirement root in a drawn order and in its reverse before the "
                   "case's root, and the repository lookups of resolvers with different histories are compared with each "
                   "other and with Mvs/Locate.v; the caches of the resolvable cases are then loaded as projects by dawn.Load "
-                  "(Project.buildList vs the reference and vs Mvs/Load.v), intact and with an entry unreadable or out of reach.",
+                  "(Project.buildList vs the reference and vs Mvs/Load.v), intact and with an entry unreadable or out of reach; "
+                  "a third of the repositories with dawn.toml deliver a left-over .dawnconfig next to it (another revision's, "
+                  "another project's, one without requirements, not a configuration), half of the loaded root projects "
+                  "with dawn.toml have one too. Version spellings: ~290 strings (canonical versions and their derivations) "
+                  "through WriteConfigFile/LoadConfigFile vs Mvs/Gate.v, ~1200 cmpVersion pairs vs the model, and 30/300 "
+                  "universes in which two tags of equal precedence (build metadata, short forms) of one project are demanded "
+                  "by the root / one project / two projects, built under both declaration orders x 3 fresh runs: all "
+                  "answers must be the same and a list must select a highest demanded version.",
     "level_note": "Trusted: Coq kernel; the python rendering of version strings into canonical semver records; the "
                   "model of par.Work as an arbitrary sequential pick order (g.Require runs under the library's mutex); the cache "
                   "theorems assume os.Rename of a directory is atomic, that a complete download holds the project's configuration "
@@ -50,14 +64,17 @@ META = {
                   "family cannot inject a dialer into dawn.Load (the Dialer interface is sealed), so its repositories are "
                   "either fully cached or unreachable; a copy-instead-of-rename publication could only be seen by parking inside the "
                   "resolver's own copy, which the harness cannot do. "
-                  "Requirement versions are canonical (LoadConfigBytes enforces it); build metadata is out of the model.",
+                  "Requirement versions in the record model (Mvs/Version.v) are canonical; that LoadConfigBytes enforces it is now "
+                  "modelled on the strings (Mvs/Gate.v) and checked on version spellings; the python rendering of a GATED string "
+                  "into a record stays trusted (no theorem links Gate.v's digit strings to Version.v's numbers).",
     "design_ref": "DESIGN.md §6 C10",
 }
 
-HDR = "From Dawn Require Import Mvs.Edit Mvs.Run Mvs.Load Mvs.Locate Mvs.RunLoad.\nOpen Scope N_scope.\n"
-LOAD_BASE, LOC_BASE = 1000000, 2000000
+HDR = "From Dawn Require Import Mvs.Edit Mvs.Run Mvs.Load Mvs.Locate Mvs.RunLoad Mvs.RunGate.\nOpen Scope N_scope.\n"
+LOAD_BASE, LOC_BASE, GATE_BASE, CMP_BASE, TWIN_BASE = 1000000, 2000000, 3000000, 4000000, 5000000
 OVL = "overlay/internal/mvs/"
-FILES = ["zz_verif_mvsgen_test.go", "zz_verif_c10_test.go", "zz_verif_c10_cache_test.go", "zz_verif_c11_test.go"]
+FILES = ["zz_verif_mvsgen_test.go", "zz_verif_c10_test.go", "zz_verif_c10_cache_test.go", "zz_verif_c11_test.go",
+         "zz_verif_c10_spell_test.go"]
 
 SEMVER = re.compile(r"^v(0|[1-9]\d*)\.(0|[1-9]\d*)\.(0|[1-9]\d*)(?:-([0-9A-Za-z.-]+))?$")
 
@@ -172,13 +189,24 @@ def cache_family(ctx, crecs):
                                    lambda p: p["nested_in_project"] != "" and p["nested_in_project"] == p["repository"]),
                                   ("repository on the well-known host", lambda p: p["repository"].startswith("github.com/")),
                                   ("repository found by dialing prefixes", lambda p: not p["repository"].startswith("github.com/")))},
+        "configuration_files": {k: sum(1 for u in cunis.values() for r in u["repositories"].values() if sel(r))
+                                for k, sel in (("dawn.toml alone", lambda r: r["config_file"] == "dawn.toml" and not r.get("left_over_dawnconfig_next_to_dawn_toml")),
+                                               (".dawnconfig alone", lambda r: r["config_file"] == ".dawnconfig"),
+                                               ("dawn.toml next to a left-over .dawnconfig", lambda r: bool(r.get("left_over_dawnconfig_next_to_dawn_toml"))))},
+        "left_over_dawnconfig_holds": {k: sum(1 for u in cunis.values() for r in u["repositories"].values()
+                                              if r.get("left_over_dawnconfig_next_to_dawn_toml") == k)
+                                       for k in sorted({r.get("left_over_dawnconfig_next_to_dawn_toml") for u in cunis.values()
+                                                        for r in u["repositories"].values()} - {"", None})},
         "entries_checked_against_tables": end[0].get("entries_checked_against_tables", 0),
         "exported_to_project_load_family": end[0].get("exported", 0),
         "rule": "generated universes laid out over several repositories (project at a repository root reported as '' "
                 "or '.', in a subdirectory, in the shared repository, nested below another project -- also below the "
                 "project at the repository root --, whose download then carries the nested trees; repositories on the "
                 "well-known host or, a third of the universes, on hosts where the repository is found by dialing prefixes "
-                "of the project path; dawn.toml or .dawnconfig next to other files; a third of the universes each with "
+                "of the project path; dawn.toml or .dawnconfig next to other files, or -- 4 in 15 repositories -- dawn.toml "
+                "next to a left-over .dawnconfig that is not the project's configuration (its own at another revision, "
+                "another project's, one without requirements, no configuration at all; the reference takes the "
+                "requirements from the tables, i.e. from dawn.toml); a third of the universes each with "
                 "no / a fifth / half of the requirements on pseudo-versions); per case the fault-free cold and warm runs, "
                 "every cache entry compared with the tree of its project version in the generated tables, and two "
                 "lookup orders: one resolver answers a root with a single requirement for every reachable project "
@@ -254,6 +282,22 @@ def load_model_exprs(lrecs, crecs):
         m = sorted(([unrename(t, p), v] for p, v in res["m"]), key=lambda e: e[0].encode("utf-8"))
         return cq_bl_result({"st": "ok", "m": m})
 
+    lcs = {r["case"]: r for r in lrecs if r["t"] == "LC"}
+    NOFILE, NOTCFG = "(@None (option config))", "(Some (@None config))"
+
+    def files(case, t, root):
+        """(dawn.toml, .dawnconfig) of the root directory as Mvs/LoadRoot.v root files (through RunLoad.root_file_of)"""
+        lc = lcs.get(case, {})
+        own = "(Some (Some %s))" % cq_config(root)
+        if lc.get("root_file", "dawn.toml") == ".dawnconfig":
+            return "(%s, %s)" % (NOFILE, own)
+        lo = lc.get("left_over")
+        if not lo:
+            return "(%s, %s)" % (own, NOFILE)
+        if "root" not in lo:
+            return "(%s, %s)" % (own, NOTCFG)
+        return "(%s, (Some (Some %s)))" % (own, cq_config([(n, unrename(t, p), v) for n, p, v in lo["root"]]))
+
     for r in lrecs:
         if r["t"] not in ("LC", "LS"):
             continue
@@ -261,23 +305,23 @@ def load_model_exprs(lrecs, crecs):
         t = unrename_table(cu)
         root = [(n, unrename(t, p), v) for n, p, v in roots[r["case"]]["root"]]
         if r["t"] == "LC":
-            keys, res = [], r["intact"]
+            keys, res, ne = [], r["intact"], False
         else:
             path, _, ver = r["entry"].rpartition("@")
-            keys, res = [cq_node(t[path], ver)], r["res"]
+            keys, res, ne = [cq_node(t[path], ver)], r["res"], bool(r.get("not_exist"))
         i = LOAD_BASE + len(index)
         index.append(r)
-        groups.setdefault(r["u"], []).append("(%s, (%s, (%s, %s)))" % (cq_N(i), cq_config(root), cq_list(keys, "node"),
-                                                                       result(t, res)))
+        groups.setdefault(r["u"], []).append("(%s, (%s, (%s, (%s, %s))))" % (cq_N(i), files(r["case"], t, root), cq_list(keys, "node"),
+                                                                            cq_bool(ne), result(t, res)))
     exprs, cur, n = [], [], 0
     for uid, items in groups.items():
         cur.append("(%s,\n  %s)" % (cq_universe(cunis[uid]["base"]), cq_list(items)))
         n += len(items)
         if n >= 150:
-            exprs.append("mismatches_c10_load [\n" + ";\n".join(cur) + "]")
+            exprs.append("mismatches_c10_load_root [\n" + ";\n".join(cur) + "]")
             cur, n = [], 0
     if cur:
-        exprs.append("mismatches_c10_load [\n" + ";\n".join(cur) + "]")
+        exprs.append("mismatches_c10_load_root [\n" + ";\n".join(cur) + "]")
     return exprs, index
 
 
@@ -330,12 +374,15 @@ def load_family(ctx, lrecs, crecs, rc, o):
         "cases": len(lcases), "loads": end[0]["loads"], "unwalkable_graph_scenarios": end[0]["scenarios"],
         "scenario_kinds": end[0]["kinds"], "outcomes": outcomes,
         "intact_ok": sum(1 for c in lcases if c["intact"]["st"] == "ok"),
-        "root_config_file": {k: sum(1 for c in lcases if c["root_config_file"] == k) for k in ("dawn.toml", ".dawnconfig")},
+        "root_config_file": {k: sum(1 for c in lcases if c["root_config_file"] == k) for k in ("dawn.toml", ".dawnconfig", "dawn.toml next to a left-over .dawnconfig")},
+        "damaged_entries_with_both_configuration_files": end[0].get("damaged_entries_with_both_configuration_files", 0),
         "rule": "the cases of the cache-state family whose reference resolves (complete cache filled by the real resolver, "
                 "multi-repository layouts, pseudo-versions) loaded as a project by dawn.Load with the cache as "
-                "$HOME/.dawn/modules/cache and the root requirements in dawn.toml or .dawnconfig: Project.buildList must be "
+                "$HOME/.dawn/modules/cache and the root requirements in dawn.toml or .dawnconfig, or in dawn.toml next to a "
+                "left-over .dawnconfig (all but one of the requirements / none / not a configuration): Project.buildList must be "
                 "the reference; then per case up to 3 (thorough: 6) cache entries x {configuration file torn at the longest / "
-                "a middle / the shortest prefix dawn's parser rejects, replaced by other bytes, removed; entry is a regular "
+                "a middle / the shortest prefix dawn's parser rejects, replaced by other bytes, removed (with the left-over "
+                ".dawnconfig of the entry, if it has one); entry is a regular "
                 "file; entry missing while no repository can be dialed}: Load must fail or answer with the reference",
     }
     if end[0]["scenarios"] == 0 or outcomes.get("fails", 0) == 0 and outcomes.get("WRONG", 0) == 0:
@@ -351,9 +398,126 @@ def load_family(ctx, lrecs, crecs, rc, o):
             f["name"], (" (%s: %s, %s)" % (fault["kind"], fault["cache_entry"], fault["detail"])) if fault else "",
             json.dumps(f["got"])[:300], "failure or " if fault else "", json.dumps(f["want"])[:300]),
             {"oracle": f["name"], "universe_and_layout": cunis.get(f["u"]), "root_requirements": f["root"],
-             "root_config_file": f["root_config_file"], "cache_state": fault or "intact: every reachable project version is in "
+             "root_config_file": f["root_config_file"], "left_over_dawnconfig_of_the_root": f.get("left_over_dawnconfig"),
+             "cache_state": fault or "intact: every reachable project version is in "
              "the cache, as the real resolver downloaded it", "got": f["got"], "want": f["want"],
-             "error_text": f.get("error_text", ""), "how": how + "; exported case %d" % f["case"]})
+             "error_text": f.get("error_text", ""), "how": how + "; exported case %d" % f["case"]},
+            key=f["name"] if f["name"] == "load:failure-below-dawn.toml-answered-from-the-left-over-dawnconfig" else None)
+
+
+def spelling_family(ctx, srecs):
+    """fifth family: version strings the version order cannot tell apart (harness/overlay/internal/mvs/
+    zz_verif_c10_spell_test.go).  Returns the model expressions (Mvs/RunGate.v) and what their ids stand for."""
+    end = [r for r in srecs if r["t"] == "END"]
+    gates = [r for r in srecs if r["t"] == "GATE"]
+    cmps = [r for r in srecs if r["t"] == "CMP"]
+    scs = [r for r in srecs if r["t"] == "SC"]
+    how = "VERIF_SEED=%d go test -overlay ... -run ^TestVerifC10Spell$ ./internal/mvs (harness/overlay/internal/mvs/" \
+          "zz_verif_c10_spell_test.go)" % ctx.seed
+    if not end or not gates or not scs:
+        ctx.violation("the version-spelling family of the C10 harness did not run to its end",
+                      {"theorem_or_correspondence": "TestVerifC10Spell", "records": len(srecs)}, found_input=False)
+        return [], {}
+    dist = {}
+    for c in scs:
+        k = "%s; %s" % (c["kind"], c["where"])
+        dist[k] = dist.get(k, 0) + 1
+    ctx.coverage["evaluations"] += end[0]["runs"] + len(gates) + len(cmps)
+    ctx.coverage["version_spellings"] = {
+        "spellings_through_the_configuration_gate": len(gates), "admitted": sum(1 for g in gates if g["admitted"]),
+        "admitted_examples": [g["text"] for g in gates if g["admitted"]][:6],
+        "rejected_examples": [g["text"] for g in gates if not g["admitted"]][:12],
+        "cmpVersion_pairs": len(cmps), "cmpVersion_pairs_that_tie": sum(1 for c in cmps if c["c"] == 0 and c["ta"] != c["tb"]),
+        "universes_with_twins": len(scs), "build_lists": end[0]["runs"],
+        "twin_universes_by_answer": {k: sum(1 for c in scs if sel(c)) for k, sel in (
+            ("the root configuration does not load", lambda c: c["rejected_at_root"]),
+            ("BuildList fails (a dependency's configuration does not load)", lambda c: c["first"]["st"] == "err" and not c["rejected_at_root"]),
+            ("a build list", lambda c: c["first"]["st"] == "ok"))},
+        "distribution": dist,
+        "rule": "(A) canonical versions (fixed boundary ones and drawn ones) and ~40 derivations of each -- build metadata, "
+                "short forms vMAJOR / vMAJOR.MINOR, leading zeros, empty / malformed identifiers, other prefixes, blanks, "
+                "pseudo-versions -- plus fixed strings ('', none, latest, ...): each as the version of a requirement "
+                "through WriteConfigFile + LoadConfigFile (the gate), pairs of them through cmpVersion; both compared with "
+                "Mvs/Gate.v.  (B) generated universes in which one project gets two tags of equal precedence on different "
+                "revisions (build/build, canonical/build, prerelease+build, canonical/short minor, canonical/short major, "
+                "short/short, short/build; round-robin) that are both demanded -- by the root, by one project, by two "
+                "projects --; the root requirements go through WriteConfigFile + LoadConfigFile as dawn's do; BuildList "
+                "under both declaration orders of the twins x 3 runs on fresh resolvers and cold caches: all answers must "
+                "be identical (an error is an answer), a list must select for every reachable path a demanded version "
+                "that no demanded version exceeds.  On a tree whose gate admits canonical versions only every such "
+                "universe is rejected, in every order",
+    }
+    seen = set()
+    for f in [r for r in srecs if r["t"] == "ORACLE"]:
+        if f["name"] in seen:
+            continue
+        seen.add(f["name"])
+        tw = f["input"]["twins"]
+        ctx.violation("implementation violates C10 oracle %s: project %s is tagged %s (%s) and both are demanded (%s): %s" % (
+            f["name"], f["input"]["project_with_twins"], " and ".join(k for k in tw if k != "kind"), tw["kind"],
+            f["input"]["demanded_by"], f["what"][:600]),
+            {"oracle": f["name"], "what": f["what"], "input": f["input"], "runs": f["runs"],
+             "how": how + ", case %d" % f["case"]})
+    exprs, index = [], {}
+    items = []
+    for i, g in enumerate(gates):
+        index[GATE_BASE + i] = g
+        items.append("(%s, (%s, %s))" % (cq_N(GATE_BASE + i), cq_bytes(bytes.fromhex(g["s"])), cq_bool(g["admitted"])))
+    exprs.append("mismatches_gate %s" % cq_list(items))
+    items = []
+    for i, c in enumerate(cmps):
+        index[CMP_BASE + i] = c
+        items.append("(%s, ((%s, %s), %s))" % (cq_N(CMP_BASE + i), cq_bytes(bytes.fromhex(c["a"])), cq_bytes(bytes.fromhex(c["b"])),
+                                               {-1: "Lt", 0: "Eq", 1: "Gt"}[c["c"]]))
+    for k in range(0, len(items), 700):
+        exprs.append("mismatches_cmp %s" % cq_list(items[k:k + 700]))
+    items = []
+    for i, c in enumerate(scs):
+        for j, side in enumerate(("a", "b")):
+            index[TWIN_BASE + 2 * i + j] = (c, side)
+            items.append("(%s, %s)" % (cq_N(TWIN_BASE + 2 * i + j), cq_bytes(bytes.fromhex(c[side]))))
+    exprs.append("admitted_ids %s" % cq_list(items))
+    return exprs, index
+
+
+def spelling_model(ctx, allm, index, srecs):
+    """model (Mvs/Gate.v) vs implementation on the spelling family"""
+    if not index:
+        return
+    gm = [index[i] for i in allm if GATE_BASE <= i < CMP_BASE]
+    cm = [index[i] for i in allm if CMP_BASE <= i < TWIN_BASE]
+    model_admits = {i for i in allm if i >= TWIN_BASE}
+    scs = [r for r in srecs if r["t"] == "SC"]
+    # a universe that demands twins: the model's gate rejects at least one of them (admitted_versions_never_tie), so the
+    # configuration that names it does not load and BuildList fails; an implementation that answers with a list disagrees
+    tm = [c for i, c in enumerate(scs) if c["first"]["st"] == "ok"
+          and not (TWIN_BASE + 2 * i in model_admits and TWIN_BASE + 2 * i + 1 in model_admits)]
+    ctx.coverage["correspondence"]["version_gate_cases"] = sum(1 for i in index if GATE_BASE <= i < CMP_BASE)
+    ctx.coverage["correspondence"]["version_gate_mismatches"] = len(gm)
+    ctx.coverage["correspondence"]["cmpVersion_cases"] = sum(1 for i in index if CMP_BASE <= i < TWIN_BASE)
+    ctx.coverage["correspondence"]["cmpVersion_mismatches"] = len(cm)
+    ctx.coverage["correspondence"]["twin_universes"] = len(scs)
+    ctx.coverage["correspondence"]["twin_universe_mismatches"] = len(tm)
+    if gm and not ctx.violations:
+        ctx.violation("model/implementation disagree on which requirement versions a configuration may carry: %d of %d spellings, "
+                      "e.g. %s" % (len(gm), ctx.coverage["correspondence"]["version_gate_cases"],
+                                   ", ".join("%r (implementation %s)" % (g["text"], "admits" if g["admitted"] else "rejects") for g in gm[:6])),
+                      {"theorem_or_correspondence": "correspondence Mvs/Gate.v (gate; theorem admitted_versions_never_tie rests on it) <-> "
+                                                    "internal/project/config.go LoadConfigBytes",
+                       "disagreeing_cases": [{"version": g["text"], "implementation_admits": g["admitted"]} for g in gm[:12]],
+                       "twin_universes_answered_with_a_list": [{"twins": [c["ta"], c["tb"]], "demanded_by": c["where"], "answer": c["first"],
+                                                                "input": c["input"]} for c in tm[:2]]}, found_input=False)
+    if tm and not ctx.violations:
+        ctx.violation("model/implementation disagree on %d universes that demand one project at two versions of equal precedence: "
+                      "the implementation answers with a list, e.g. twins %s / %s" % (len(tm), tm[0]["ta"], tm[0]["tb"]),
+                      {"theorem_or_correspondence": "correspondence Mvs/Gate.v <-> LoadConfigBytes + BuildList",
+                       "disagreeing_cases": [{"twins": [c["ta"], c["tb"]], "demanded_by": c["where"], "answer": c["first"],
+                                              "input": c["input"]} for c in tm[:3]]}, found_input=False)
+    if cm and not ctx.violations:
+        ctx.violation("model/implementation disagree on cmpVersion for %d pairs of version strings, e.g. cmpVersion(%r, %r) = %d" % (
+            len(cm), cm[0]["ta"], cm[0]["tb"], cm[0]["c"]),
+            {"theorem_or_correspondence": "correspondence Mvs/Gate.v (cmp_version_str) <-> internal/mvs/reqs.go cmpVersion",
+             "disagreeing_cases": [{"v1": c["ta"], "v2": c["tb"], "implementation": c["c"]} for c in cm[:12]]}, found_input=False)
 
 
 def fetch_family(ctx):
@@ -448,7 +612,8 @@ def run(ctx):
     env = {"VERIF_OUT": out, "VERIF_NUNIV": str(nuniv), "VERIF_NROOTS": "3", "VERIF_SEED": str(ctx.seed),
            "VERIF_MALFORMED_MAJOR": os.environ.get("VERIF_MALFORMED_MAJOR", "0"),
            "VERIF_OUT_CACHE": outc, "VERIF_NUNIV_CACHE": str(ncache), "VERIF_NROOTS_CACHE": "2",
-           "VERIF_CACHE_TARGETS": "3"}
+           "VERIF_CACHE_TARGETS": "3",
+           "VERIF_OUT_SPELL": os.path.join(ctx.tmp, "c10spell.jsonl"), "VERIF_NUNIV_SPELL": str(30 if ctx.quick() else 300)}
     # the cache-state family creates and removes ~10^5 small files: keep the temporary directory (the resolver's
     # staging areas and the cache directories alike, so renames stay on one file system) in memory when possible
     shm = None
@@ -464,7 +629,7 @@ def run(ctx):
     outl = os.path.join(ctx.tmp, "c10load.jsonl")
     rcl, ol = None, ""
     try:
-        rc, o = ctx.go_overlay_test("internal/mvs", harness_files(), "^TestVerifC10(Cache)?$", env, timeout=1500)
+        rc, o = ctx.go_overlay_test("internal/mvs", harness_files(), "^TestVerifC10(Cache|Spell)?$", env, timeout=1500)
         if rc == 0:
             envl = {"VERIF_C10_EXPORT": export, "VERIF_OUT_LOAD": outl, "VERIF_SEED": str(ctx.seed),
                     "VERIF_C10_LOAD_ENTRIES": "3" if ctx.quick() else "6",
@@ -481,6 +646,7 @@ def run(ctx):
     recs = read_jsonl(out)
     crecs = read_jsonl(outc)
     lrecs = read_jsonl(outl)
+    srecs = read_jsonl(env["VERIF_OUT_SPELL"])
     if rc != 0:
         ctx.log(o[-3000:])
         cc = crashed_case(recs)
@@ -525,6 +691,7 @@ def run(ctx):
     ctx.coverage["correspondence"]["distribution"] = dist
     cache_family(ctx, crecs)
     load_family(ctx, lrecs, crecs, rcl, ol)
+    sexprs, sindex = spelling_family(ctx, srecs)
     fetch_family(ctx)
     ctx.add_samples([{"root": c["root"], "build_list": c["res"]["cold"]} for c in cases[:3]])
 
@@ -556,7 +723,7 @@ def run(ctx):
         exprs.append("mismatches_c10 [\n" + ";\n".join(cur) + "]")
     lexprs, lindex = load_model_exprs(lrecs, crecs) if any(r["t"] == "END" for r in lrecs) else ([], [])
     kexprs, kindex = locate_model_exprs(crecs)
-    okc, res, logs = ctx.coq_eval(HDR, exprs + lexprs + kexprs)
+    okc, res, logs = ctx.coq_eval(HDR, exprs + lexprs + kexprs + sexprs)
     if not okc:
         ctx.log("coq evaluation failed", logs[:1])
         ctx.violation("model evaluation failed", {"theorem_or_correspondence": "C10 cases.v evaluation", "log": logs[:2]},
@@ -565,7 +732,7 @@ def run(ctx):
     allm = [i for r in res for i in r]
     mism = [i for i in allm if i < LOAD_BASE]
     lmism = [lindex[i - LOAD_BASE] for i in allm if LOAD_BASE <= i < LOC_BASE]
-    kmism = [kindex[i - LOC_BASE] for i in allm if i >= LOC_BASE]
+    kmism = [kindex[i - LOC_BASE] for i in allm if LOC_BASE <= i < GATE_BASE]
     ctx.coverage["correspondence"]["cases"] = len(cases)
     ctx.coverage["correspondence"]["mismatches"] = len(mism)
     ctx.coverage["correspondence"]["project_load_cases"] = len(lindex)
@@ -581,11 +748,13 @@ def run(ctx):
     ctx.coverage["evaluations"] += len(kindex)
     ctx.log("cases=%d mismatches=%d oracle_failures=%d; project-load cases=%d mismatches=%d; repository lookups=%d mismatches=%d" % (
         len(cases), len(mism), len(oracles), len(lindex), len(lmism), len(kindex), len(kmism)))
+    spelling_model(ctx, allm, sindex, srecs)
     if lmism and not ctx.violations:
         ctx.violation("model/implementation disagree on %d project loads, e.g. exported case %d%s" % (
             len(lmism), lmism[0]["case"], (" with cache entry %s damaged (%s)" % (lmism[0]["entry"], lmism[0]["kind"]))
             if lmism[0]["t"] == "LS" else " (intact cache)"),
-            {"theorem_or_correspondence": "correspondence Mvs/Load.v (load_build_list) <-> project_config.go loadConfigFile via Load",
+            {"theorem_or_correspondence": "correspondence Mvs/Load.v (load_build_list) + Mvs/LoadRoot.v (load_config_loop) <-> "
+                                       "project_config.go loadConfig / loadConfigFile via Load",
              "disagreeing_cases": lmism[:3]}, found_input=False)
     if kmism and not ctx.violations:
         ctx.violation("model/implementation disagree on %d repository lookups, e.g. %s" % (len(kmism), kmism[0]["project_path"]),
